@@ -31,7 +31,7 @@ COMPONENTS = {
     "stub_or_harness": ["history generator", "WriterModel reference model"],
 }
 PROBES = [
-    "same_string_in_both_modes", "second_writer_interleaved", "refusal_on_nonempty_buffer", "refusal_right_after_mode_toggle", "perfect_fit_padded",
+    "same_string_in_both_modes", "generated_serializer_after_chunked", "second_writer_interleaved", "refusal_on_nonempty_buffer", "refusal_right_after_mode_toggle", "perfect_fit_padded",
     "y_diaeresis_sanitized", "y_diaeresis_unsanitized", "to_bytearray_is_copy", "refusal_far_beyond_limit",
     "refusal_string_one_too_long", "refusal_string_one_too_short",
 ]
@@ -75,16 +75,55 @@ def generate(streams, tier):
                 if rng.random() < p_invalid:
                     length = max(0, len(s) + rng.choice([-2, -1, 1, 2, 5]))
                 else:
-                    length = len(s) + (rng.choice([0, 0, 1, 3, 10]) if padded else 0)
+                    length = len(s) + (rng.choice([0, 0, 1, 3, 10, 10, 253, 300, 2000]) if padded else 0)
                 ops.append([op, s, length, padded])
-    return {"ops": ops}
+    plan = {"ops": ops}
+    if rng.random() < 0.03:
+        plan["generated"] = {"inside": pool.get(vr), "tail": pool.get(vr), "flag": gen_int_in_range(vr, "char"),
+                             "entry": rng.random() < 0.3}
+    return plan
+
+
+def run_generated(plan, env, res, tr):
+    """Sanitisation 'exactly when asked' through a generated serializer: inside <chunked> yes, after it no."""
+    g = plan["generated"]
+    EoWriter = importlib.import_module("eolib.data.eo_writer").EoWriter
+    net = importlib.import_module("eolib.protocol._generated.net")
+    obj = net.AfterChunk(inside=g["inside"], flag=g["flag"], tail=g["tail"])
+    w = EoWriter()
+    w.string_sanitization_mode = bool(g["entry"])
+    m = WriterModel()
+    m.sanitize = True
+    expect = m.image("add_string", [g["inside"]]) + b"\xff"
+    m.sanitize = False
+    expect += m.image("add_char", [g["flag"]]) + m.image("add_string", [g["tail"]])
+    net.AfterChunk.serialize(w, obj)
+    got = bytes(w.to_bytearray())
+    res.count("probe.generated_serializer_after_chunked")
+    tr.ev("generated", got.hex())
+    if got != expect:
+        return {"kind": "appended-bytes", "signature": "C09|appended-bytes|generated-serializer|sanitize=False",
+                "detail": f"AfterChunk(inside={g['inside']!r}, tail={g['tail']!r}).serialize wrote {got.hex()}, the declaration "
+                          f"(sanitised inside <chunked>, exact image after it) prescribes {expect.hex()}", "step": 0}
+    if bool(w.string_sanitization_mode) != bool(g["entry"]):
+        return {"kind": "mode", "signature": "C09|mode|generated-serializer", "detail": "serialize changed the writer's mode", "step": 0}
+    return None
 
 
 def execute(plan, env):
-    env.skeleton()
+    if not env.cache.get("c06_loaded"):
+        from .c06_chunks import c06_tree
+        env.load_tree(c06_tree())
+        env.cache["c06_loaded"] = True
     EoWriter = importlib.import_module("eolib.data.eo_writer").EoWriter
     res = Result()
     tr = Trace(keep=env.keep_trace)
+    if plan.get("generated"):
+        v = run_generated(plan, env, res, tr)
+        if v:
+            res.violation = v
+            res.digest = tr.digest()
+            return res
     w = EoWriter()
     m = WriterModel()
     toggled_last = False
